@@ -95,6 +95,7 @@ type Obligation struct {
 	File    string
 	ExpectSat bool // cover / canary: expected to be satisfiable
 	BufLen    int  // number of body lines emitted before this obligation (later assumptions are not used)
+	Ground    bool // quantified assumptions are dropped from the query (fewer assumptions: still sound)
 }
 
 // ---------------------------------------------------------------------------
@@ -125,6 +126,7 @@ type Gen struct {
 	replay   *ReplayInfo
 	arrElems map[string]map[string]Val // local array location -> constant index -> stored value
 	worldSeen map[string]bool
+	topFrame *Frame
 }
 
 type engineError struct{ msg string }
@@ -821,6 +823,9 @@ func (g *Gen) runFunc(fn *ssa.Function, args []Val, free []Val, st *State, reach
 		}
 		f.exit[b] = cur
 	}
+	if isTop {
+		g.topFrame = f
+	}
 	// merge returns
 	return f.mergeReturns()
 }
@@ -934,8 +939,17 @@ func (f *Frame) joinPreds(b *ssa.BasicBlock) (*State, string) {
 			out.cells[c] = vals[0]
 			continue
 		}
-		if vals[0].Term == "" {
-			g.fail("%s: cell %s holds different pointers on joining paths", f.fn.Name(), c.name)
+		mixed := false
+		for _, v := range vals {
+			if v.Term == "" {
+				mixed = true
+			}
+		}
+		if mixed {
+			// a pointer-valued cell that differs between the joining paths: its content is no longer tracked
+			g.note("pointer cell %s differs on joining paths (content untracked afterwards)", c.name)
+			delete(out.cells, c)
+			continue
 		}
 		terms := make([]string, len(vals))
 		for i, v := range vals {
@@ -1088,15 +1102,8 @@ func (f *Frame) mergeReturns() ([]Val, *State, string) {
 			}
 		}
 		if len(vals) != len(f.rets) {
-			// cell not live on every return path: keep only if identical
+			// cell not live on every return path: it is dead after the call
 			delete(out.cells, c)
-			if len(vals) > 0 && vals[0].Term != "" {
-				terms := make([]string, len(vals))
-				for i, v := range vals {
-					terms[i] = v.Term
-				}
-				out.cells[c] = Val{Sort: vals[0].Sort, Term: g.def("c_"+c.name+"_x", vals[0].Sort, iteChain(ees, terms)), GoT: vals[0].GoT}
-			}
 			continue
 		}
 		same := true
@@ -1109,7 +1116,13 @@ func (f *Frame) mergeReturns() ([]Val, *State, string) {
 			out.cells[c] = vals[0]
 			continue
 		}
-		if vals[0].Term == "" {
+		mixed := false
+		for _, v := range vals {
+			if v.Term == "" {
+				mixed = true
+			}
+		}
+		if mixed {
 			delete(out.cells, c)
 			continue
 		}
